@@ -844,6 +844,70 @@ func eachContainerLength(emit func(wireCase)) {
 	}
 }
 
+// eachInnerLength: every length field INSIDE an RDATA (16-bit and 8-bit length prefixes of TSIG,
+// TKEY, HIP, NSEC3, NSEC3PARAM, ... fields) claims more than is there - the preceding fields are
+// well-formed and RDLENGTH is truthful, only the inner length lies (by one, by a lot, by the maximum)
+func eachInnerLength(emit func(wireCase)) {
+	for _, typ := range append(append([]uint16{}, gen.AllTypes...), wm.TTSIG, wm.TTKEY) {
+		layout := wm.Layout[typ]
+		r := smallRec(typ, 1, 3)
+		for i, sp := range layout {
+			if sp.K != wm.L16 && sp.K != wm.L8 && sp.K != wm.HIPHdr {
+				continue
+			}
+			var before []byte
+			for _, f := range r.Fields[:i] {
+				before = wm.EncodeField(before, f)
+			}
+			whole := wm.EncodeRdata(r)
+			width := 2
+			at := len(before)
+			if sp.K == wm.L8 {
+				width = 1
+			}
+			var lies []int
+			if width == 2 {
+				lies = []int{4, 5, 255, 256, 4096, 32767, 32768, 65535}
+			} else {
+				lies = []int{4, 5, 127, 128, 255}
+			}
+			offs := []int{at}
+			if sp.K == wm.HIPHdr { // hit length (1 octet) | algorithm | public key length (2 octets)
+				offs = []int{at, at + 2}
+			}
+			for oi, o := range offs {
+				w2 := width
+				if sp.K == wm.HIPHdr {
+					w2 = []int{1, 2}[oi]
+				}
+				for _, lie := range lies {
+					if w2 == 1 && lie > 255 {
+						continue
+					}
+					for _, tail := range []int{0, 1, 8} { // octets really present behind the RDATA
+						rd := append([]byte{}, whole...)
+						if o+w2 > len(rd) {
+							continue
+						}
+						if w2 == 2 {
+							rd[o], rd[o+1] = byte(lie>>8), byte(lie)
+						} else {
+							rd[o] = byte(lie)
+						}
+						w := []byte{0, 9, 0x84, 0, 0, 0, 0, 1, 0, 0, 0, 0, 1, 'x', 0}
+						w = binary.BigEndian.AppendUint16(w, typ)
+						w = append(w, 0, 1, 0, 0, 0, 9)
+						w = binary.BigEndian.AppendUint16(w, uint16(len(rd)))
+						w = append(w, rd...)
+						w = append(w, bytes.Repeat([]byte{0}, tail)...)
+						emit(wireCase{Input: w, Kind: "inner-length-lies:" + typeName(typ), Valid: true})
+					}
+				}
+			}
+		}
+	}
+}
+
 // eachKeySequence: two containers in a row - a well-formed first item followed by an item with
 // every interesting key/code (the reserved, private and unknown ones included) and a short body:
 // checks that only look at the FIRST item of a list are not enough.
@@ -1144,6 +1208,7 @@ func eachManyItems(emit func(wireCase)) {
 }
 
 func init() {
+	pbt.RegisterEnum(pbt.Enum[wireCase]{Name: "inner-length-lies", Exhaustive: true, Each: eachInnerLength, Check: checkMsg})
 	pbt.RegisterEnum(pbt.Enum[wireCase]{Name: "item-sequences", Exhaustive: true, Each: eachKeySequence, Check: checkMsg})
 	pbt.RegisterEnum(pbt.Enum[wireCase]{Name: "every-type-empty-rdata", Exhaustive: true, Each: eachEmptyRdata, Check: checkMsg})
 	pbt.RegisterEnum(pbt.Enum[wireCase]{Name: "every-container-many-items", Exhaustive: true, Each: eachManyItems, Check: checkMsg})
